@@ -297,6 +297,35 @@ _EXT_MODULES = {"re": re, "string": string,
 
 
 _EXT_MODULES["collections"].abc = _EXT_MODULES["collections.abc"]
+_EXT_MODULES["collections"].Counter = _collections_mod.Counter
+_EXT_MODULES["collections"].defaultdict = _collections_mod.defaultdict
+_EXT_MODULES["collections"].ChainMap = _collections_mod.ChainMap
+
+
+class _SilentLogger:
+    """logging.getLogger(...) as seen by interpreted code: every record is dropped, nothing is enabled.  (What is logged
+    never flows back into a result; C20 R-NOHIDDEN judges what is handed to it.)"""
+
+    def __getattr__(self, name):
+        if name in ("isEnabledFor",):
+            return lambda *a, **k: False
+        if name in ("level", "disabled", "propagate"):
+            return 0
+        if name in ("name",):
+            return "pregex"
+        if name in ("handlers", "filters"):
+            return []
+        return lambda *a, **k: None
+
+
+_EXT_MODULES["logging"] = _types.SimpleNamespace(
+    getLogger=lambda *a, **k: _SilentLogger(), NullHandler=lambda *a, **k: _SilentLogger(), Logger=_SilentLogger,
+    DEBUG=10, INFO=20, WARNING=30, ERROR=40, CRITICAL=50, NOTSET=0,
+    debug=lambda *a, **k: None, info=lambda *a, **k: None, warning=lambda *a, **k: None, error=lambda *a, **k: None,
+    basicConfig=lambda *a, **k: None)
+# clocks are deterministic for interpreted code (a result must not depend on them: C20 R-NOHIDDEN)
+_EXT_MODULES["time"] = _types.SimpleNamespace(perf_counter=lambda: 0.0, monotonic=lambda: 0.0, time=lambda: 0.0,
+                                              perf_counter_ns=lambda: 0, monotonic_ns=lambda: 0, process_time=lambda: 0.0)
 
 
 class Interp:
@@ -387,6 +416,8 @@ class Interp:
                 fr = Frame(module, None, None, None, 0)
                 self._class_attr_cache[key] = self.eval(module.assigns[name], Env(), fr)
             return self._class_attr_cache[key]
+        if name == "__name__":
+            return module.name
         if name == "__class__" and frame is not None and frame.cls is not None:
             return ClassRef(frame.cls)
         if name == "super":
@@ -408,6 +439,8 @@ class Interp:
             pass
         if frame.func is None and frame.cls is not None and name in frame.cls.attrs:
             return self._class_attr(frame.cls, name)      # class body: earlier class-level names are in scope
+        if frame.func is None and frame.cls is not None and name in frame.cls.methods:
+            return FuncRef(frame.cls.methods[name])       # class body: a function defined there, as a plain function
         try:
             return self._module_env_lookup(frame.module, name, frame)
         except Incomplete:
@@ -655,6 +688,8 @@ class Interp:
         if isinstance(owner, str) and getattr(f, "__name__", "") == "format":
             args = [self.to_str(a, node) if isinstance(a, (Obj, Native)) else a for a in args]
             kwargs = {k: (self.to_str(v, node) if isinstance(v, (Obj, Native)) else v) for k, v in kwargs.items()}
+        if isinstance(getattr(f, "__self__", None), _SilentLogger) or getattr(f, "__qualname__", "").startswith("_SilentLogger."):
+            return None
         for a in list(args) + list(kwargs.values()):
             if isinstance(a, (Obj, Native, Lazy)):
                 if f in (tuple, list, set, frozenset, dict, id) or \
@@ -1351,6 +1386,8 @@ class Interp:
             return self.getattr(v, e.attr, frame, e)
         if t is ast.Call:
             f = self.eval(e.func, env, frame)
+            if getattr(f, "__qualname__", "").startswith("_SilentLogger."):
+                return None          # a log record: its arguments are not evaluated (they cannot reach a result)
             args, kwargs = self.eval_args(e, env, frame)
             return self._call_value(f, args, kwargs, e, frame)
         if t is ast.JoinedStr:
